@@ -301,6 +301,7 @@ type Result struct {
 	Inserted map[int][]Inserted
 	// key buffers handed to the implementation during the current op (see CallerKey)
 	callerKeys [][]byte
+	freeKeys   [][]byte
 }
 
 // CallerKey returns a private copy of k to be passed to the implementation as a key. The copy is a buffer the CALLER owns: Scribble
@@ -311,16 +312,31 @@ func (r *Result) CallerKey(k []byte) []byte {
 	if k == nil {
 		return nil
 	}
-	c := append(make([]byte, 0, len(k)), k...)
+	// the memory of a buffer handed out for an EARLIER call is used again when it is large enough: the caller encodes its next key
+	// in place, so a reference kept by the implementation now reads another valid key, not garbage
+	var c []byte
+	for i := len(r.freeKeys) - 1; i >= 0; i-- {
+		if cap(r.freeKeys[i]) >= len(k) {
+			c = append(r.freeKeys[i][:0], k...)
+			r.freeKeys = append(r.freeKeys[:i], r.freeKeys[i+1:]...)
+			break
+		}
+	}
+	if c == nil {
+		c = append(make([]byte, 0, len(k)+8), k...)
+	}
 	r.callerKeys = append(r.callerKeys, c)
 	return c
 }
 
-// Scribble overwrites every buffer handed out by CallerKey since the last call.
+// Scribble overwrites every buffer handed out by CallerKey since the last call; the buffers are then free to carry the keys of later calls.
 func (r *Result) Scribble() {
 	for _, k := range r.callerKeys {
 		for i := range k {
 			k[i] ^= 0xA5
+		}
+		if len(r.freeKeys) < 6 {
+			r.freeKeys = append(r.freeKeys, k)
 		}
 	}
 	r.callerKeys = r.callerKeys[:0]
